@@ -766,9 +766,16 @@ def hermitian_hamiltonian(draw, spec, max_terms=5, real_only=False):
     """charge-neutral terms t plus their adjoints: H = sum (t + t^dagger) is Hermitian by construction."""
     terms, q = draw(charged_operator(spec, charge=tuple([0] * qn_size(spec)), max_terms=max_terms, real_only=real_only))
     out = []
+    bl = build_basis_list(spec)
     for t in terms:
         d = dagger_term(t)
         if d is None:
+            continue
+        try:
+            # the adjoint must be spelt with symbols the basis sets support (e.g. SineDVR has 'x^2 dx' but not 'dx x^2')
+            for site, (words, ldofs) in regroup(d).items():
+                local_matrix(spec, bl, site, words, ldofs)
+        except ValueError:
             continue
         out.append(t)
         out.append(d)
